@@ -227,6 +227,18 @@ func mkeq(a, b *T) *T {
 		}
 		return tconst(0, nil)
 	}
+	// nil against nil, and against values that are never nil
+	if a.Op == "nil" && b.Op == "nil" {
+		return tconst(1, nil)
+	}
+	for _, xy := range [][2]*T{{a, b}, {b, a}} {
+		if xy[1].Op == "nil" {
+			switch xy[0].Op {
+			case "fn", "closure", "new", "alloc", "addr", "makeslice", "makemap", "makechan", "iface":
+				return tconst(0, nil)
+			}
+		}
+	}
 	// constant on the right
 	if a.IsConst() || a.Op == "str" || a.Op == "nil" {
 		a, b = b, a
@@ -424,5 +436,17 @@ func mkcmp(op string, a, b *T) *T {
 		}
 		return tconst(0, nil)
 	}
+	if op == "le" && !isFloatType(a.Ty) && !isFloatType(b.Ty) {
+		// one spelling per test: a <= b is !(b < a) (not for floats: NaN)
+		return mknot(&T{Op: "lt", A: []*T{b, a}})
+	}
 	return &T{Op: op, A: []*T{a, b}}
+}
+
+func isFloatType(t types.Type) bool {
+	if t == nil {
+		return false
+	}
+	b, ok := t.Underlying().(*types.Basic)
+	return ok && b.Info()&types.IsFloat != 0
 }
